@@ -8,7 +8,8 @@
    step runs all ticks of the LOWERED program (HydroLowering!Run).  At the end the property
    statements of HydroFlow (Broken) are evaluated on the outputs of the lowered program.
    With EMIT the finished behaviour is printed as a CASE line (the schedule, for replay into
-   the real generated Dfir) together with the denoted expected observation. *)
+   the real generated Dfir) together with the denoted expected observation (expect) and the
+   per-tick outputs of the lowered program (pred). *)
 EXTENDS HydroLowering, Json, IOUtils
 
 CONSTANTS MaxLen,      \* global bound on input length (each port also has its own bound)
@@ -82,7 +83,7 @@ OneTick == <<[nm \in DOMAIN B[1] |-> Cat([t \in 1..Len(B) |-> B[t][nm]])]>>
 C28Ref == (Finished /\ ~IsTickProg(P0)) => Den(P0, P0.term, B, Len(B)) = Den(P0, P0.term, OneTick, 1)
 
 Emit == (EMIT /\ Finished) =>
-          PrintT(<<"CASE", ToJson([prog |-> P0.name, ticks |-> B,
+          PrintT(<<"CASE", ToJson([prog |-> P0.name, ticks |-> B, pred |-> outs,
                                    expect |-> IF IsTickProg(P0)
                                               THEN [t \in 1..Len(B) |-> TickDen(P0, P0.term.in[1], B, t)]
                                               ELSE Den(P0, P0.term, B, Len(B))])>>)
